@@ -337,11 +337,30 @@ fn report_bytes(heads: &[(u8, u64)]) -> Vec<u8> {
 /// `on_sync_report` (decode, `has_news_for_us` of the store actor, `sync_with_peer`). Entries are
 /// only ever added to the node's document (callers pass growing sets).
 pub fn sync_report_dials(extra: &[Spec], report_ns: u8, heads: &[(u8, u64)]) -> (bool, bool, Vec<(iroh_docs::AuthorId, u64)>) {
+    sync_report_dials_after(extra, report_ns, heads, false)
+}
+
+/// `after_session`: before the report arrives the node completes a successful session with the
+/// same peer in which the peer named exactly these heads — but none of the entries entered the
+/// replica (e.g. they were refused as too far in the future at the time). What counts as news is
+/// decided by what the document holds, not by what the peer has said before.
+pub fn sync_report_dials_after(extra: &[Spec], report_ns: u8, heads: &[(u8, u64)], after_session: bool) -> (bool, bool, Vec<(iroh_docs::AuthorId, u64)>) {
     with_pair(|pair| {
         reset(pair);
         let peer = pair.nodes[1].id;
         let node = &mut pair.nodes[0];
         node.actor.verif_set_download_queued(ns(), false);
+        if after_session {
+            node.actor.verif_sync_with_peer(ns(), peer, SyncReason::NewNeighbor);
+            let _ = take_dials();
+            let mut outcome = SyncOutcome::default();
+            for (a, t) in heads {
+                outcome.heads_received.insert(author_id(*a), *t);
+            }
+            outcome.num_recv = heads.len();
+            block_on_park(node.actor.verif_on_sync_via_connect_finished(ns(), peer, SyncReason::NewNeighbor, Ok(SyncFinished { namespace: ns(), peer, outcome, timings: Timings::default() })));
+            let _ = take_dials();
+        }
         for e in extra {
             let _ = block_on_park(node._sync.insert_remote(ns(), e.signed(), crate::sut::PEER, iroh_docs::ContentStatus::Missing));
         }
